@@ -428,7 +428,7 @@ func runC10(w *eng.W) {
 		}
 	}
 	// name sets: sums of names that repeat, differ only in case, or are prefixes of each other, in every order
-	names := []string{"Total", "total", "TOTAL", "a", "A", "ab", "a.b", "a.B", "$t", "$T", "a.b.c", "Total.x", "__r", "___r", "_r", "a.__b", "__r.__b", "$__l"}
+	names := []string{"Total", "total", "TOTAL", "a", "A", "ab", "a.b", "a.B", "$t", "$T", "a.b.c", "Total.x", "__r", "___r", "_r", "a.__b", "__r.__b", "$__l", "$", "$$", "$.a", "$1"}
 	for l := 1; l <= 4; l++ {
 		seqsSharded(w, len(names), l, func(idx []int) {
 			src := joinIdx(names, idx, " + ")
